@@ -1,0 +1,123 @@
+//go:build verif
+
+// Contracts for the deductive verification in /verif (comment-only; compiled code is unaffected).
+package standard
+
+//@ func (*Service).runSignBeaconAttestationChecks
+//@ requires metadata != nil && req != nil && req.Source != nil && req.Target != nil && state != nil && s != nil
+//@ requires cap(req.Domain) >= 4
+//@ modifies state.SourceEpoch, state.TargetEpoch
+//@ ensures [verdict] result == rules.APPROVED || result == rules.DENIED
+//@ ensures [sound] result == rules.APPROVED ==> attOK(old(state.SourceEpoch), old(state.TargetEpoch), req.Source.Epoch, req.Target.Epoch, prefix4(req.Domain))
+//@ ensures [rec] result == rules.APPROVED ==> state.SourceEpoch == req.Source.Epoch && state.TargetEpoch == req.Target.Epoch
+//@ ensures [keep] result != rules.APPROVED ==> state.SourceEpoch == old(state.SourceEpoch) && state.TargetEpoch == old(state.TargetEpoch)
+//@ ensures [compl] attOK(old(state.SourceEpoch), old(state.TargetEpoch), req.Source.Epoch, req.Target.Epoch, prefix4(req.Domain)) ==> result == rules.APPROVED
+
+//@ func (*signBeaconAttestationState).Encode
+//@ ensures [shape] len(result) == 17 && fresh(result) && result[0] == 1
+//@ ensures [fields] s != nil ==> sl64(result, 1) == u64(s.SourceEpoch) && sl64(result, 9) == u64(s.TargetEpoch)
+//@ ensures [nilrecv] s == nil ==> sl64(result, 1) == 0 && sl64(result, 9) == 0
+
+//@ func (*signBeaconAttestationState).Decode
+//@ requires s != nil
+//@ modifies s.SourceEpoch, s.TargetEpoch
+//@ ensures [empty] len(data) == 0 ==> result != nil
+//@ ensures [size] len(data) > 0 && data[0] == 1 && len(data) != 17 ==> result != nil
+//@ ensures [v1] len(data) == 17 && data[0] == 1 ==> result == nil && s.SourceEpoch == s64(sl64(data, 1)) && s.TargetEpoch == s64(sl64(data, 9))
+//@ ensures [keep] result != nil && (len(data) == 0 || data[0] == 1) ==> s.SourceEpoch == old(s.SourceEpoch) && s.TargetEpoch == old(s.TargetEpoch)
+//@ ensures [gob] len(data) > 0 && data[0] != 1 ==> ((result == nil) <==> gobAttOk(bytes(data))) && (result == nil ==> s.SourceEpoch == gobAttS(bytes(data)) && s.TargetEpoch == gobAttT(bytes(data)))
+
+// ---- storage boundary (badger): db is the abstract key/value content ----
+
+//@ func (*Store).Fetch
+//@ requires s != nil
+//@ ensures [hit] result1 == nil ==> bytes(key) in db && bytes(result0) == db[bytes(key)] && fresh(result0)
+//@ ensures [miss] result1 != nil && errstr(result1) == "not found" ==> !(bytes(key) in db)
+//@ ensures [ok] store_ok ==> ((result1 == nil) <==> (bytes(key) in db)) && (result1 != nil ==> errstr(result1) == "not found")
+
+//@ func (*Store).Store
+//@ requires s != nil
+//@ modifies db
+//@ ensures [written] result == nil ==> db == old(db)[bytes(key) := bytes(value)] && len(key) > 0 && len(value) > 0
+//@ ensures [failed] result != nil ==> db == old(db)
+//@ ensures [ok] store_ok && len(key) > 0 && len(value) > 0 ==> result == nil
+
+//@ func (*Service).fetchSignBeaconAttestationState
+//@ requires s != nil && s.store != nil
+//@ ensures [found] result1 == nil ==> result0 != nil && fresh(result0) && wmAttOk(bytes(pubKey)) && result0.SourceEpoch == wmAttS(bytes(pubKey)) && result0.TargetEpoch == wmAttT(bytes(pubKey))
+//@ ensures [undecodable] !wmAttOk(bytes(pubKey)) ==> result1 != nil
+//@ ensures [ok] store_ok && wmAttOk(bytes(pubKey)) ==> result1 == nil
+
+//@ func (*Service).storeSignBeaconAttestationState
+//@ requires s != nil && s.store != nil && state != nil
+//@ modifies db
+//@ ensures [written] result == nil ==> wmAttOk(bytes(pubKey)) && wmAttS(bytes(pubKey)) == state.SourceEpoch && wmAttT(bytes(pubKey)) == state.TargetEpoch
+//@ ensures [frame] forall k Bytes :: k != attKey(bytes(pubKey)) ==> ((k in db) <==> (k in old(db))) && db[k] == old(db)[k]
+//@ ensures [failed] result != nil ==> db == old(db)
+//@ ensures [ok] store_ok ==> result == nil
+
+//@ func (*Service).OnSignBeaconAttestation
+//@ requires s != nil && s.store != nil && metadata != nil && req != nil && req.Source != nil && req.Target != nil
+//@ requires cap(req.Domain) >= 4
+//@ modifies db
+//@ ensures [verdicts] result == rules.APPROVED || result == rules.DENIED || result == rules.FAILED
+//@ ensures [sound] result == rules.APPROVED ==> old(wmAttOk(bytes(metadata.PubKey))) && attOK(old(wmAttS(bytes(metadata.PubKey))), old(wmAttT(bytes(metadata.PubKey))), req.Source.Epoch, req.Target.Epoch, prefix4(req.Domain))
+//@ ensures [rec] result == rules.APPROVED ==> wmAttOk(bytes(metadata.PubKey)) && wmAttS(bytes(metadata.PubKey)) == req.Source.Epoch && wmAttT(bytes(metadata.PubKey)) == req.Target.Epoch
+//@ ensures [keep] result != rules.APPROVED ==> db == old(db)
+//@ ensures [frame] forall k Bytes :: k != attKey(bytes(metadata.PubKey)) ==> ((k in db) <==> (k in old(db))) && db[k] == old(db)[k]
+//@ ensures [compl] store_ok && old(wmAttOk(bytes(metadata.PubKey))) && attOK(old(wmAttS(bytes(metadata.PubKey))), old(wmAttT(bytes(metadata.PubKey))), req.Source.Epoch, req.Target.Epoch, prefix4(req.Domain)) ==> result == rules.APPROVED
+
+// ---- proposals ----
+
+//@ func (*signBeaconProposalState).Encode
+//@ ensures [shape] len(result) == 9 && fresh(result) && result[0] == 1
+//@ ensures [fields] s != nil ==> sl64(result, 1) == u64(s.Slot)
+//@ ensures [nilrecv] s == nil ==> sl64(result, 1) == 0
+
+//@ func (*signBeaconProposalState).Decode
+//@ requires s != nil
+//@ modifies s.Slot
+//@ ensures [empty] len(data) == 0 ==> result != nil
+//@ ensures [size] len(data) > 0 && data[0] == 1 && len(data) != 9 ==> result != nil
+//@ ensures [v1] len(data) == 9 && data[0] == 1 ==> result == nil && s.Slot == s64(sl64(data, 1))
+//@ ensures [keep] result != nil && (len(data) == 0 || data[0] == 1) ==> s.Slot == old(s.Slot)
+//@ ensures [gob] len(data) > 0 && data[0] != 1 ==> ((result == nil) <==> gobPropOk(bytes(data))) && (result == nil ==> s.Slot == gobPropL(bytes(data)))
+
+//@ func (*Service).fetchSignBeaconProposalState
+//@ requires s != nil && s.store != nil
+//@ ensures [found] result1 == nil ==> result0 != nil && fresh(result0) && wmPropOk(bytes(pubKey)) && result0.Slot == wmPropL(bytes(pubKey))
+//@ ensures [undecodable] !wmPropOk(bytes(pubKey)) ==> result1 != nil
+//@ ensures [ok] store_ok && wmPropOk(bytes(pubKey)) ==> result1 == nil
+
+//@ func (*Service).storeSignBeaconProposalState
+//@ requires s != nil && s.store != nil && state != nil
+//@ modifies db
+//@ ensures [written] result == nil ==> wmPropOk(bytes(pubKey)) && wmPropL(bytes(pubKey)) == state.Slot
+//@ ensures [frame] forall k Bytes :: k != propKey(bytes(pubKey)) ==> ((k in db) <==> (k in old(db))) && db[k] == old(db)[k]
+//@ ensures [failed] result != nil ==> db == old(db)
+//@ ensures [ok] store_ok ==> result == nil
+
+//@ func (*Service).OnSignBeaconProposal
+//@ requires s != nil && s.store != nil && metadata != nil && req != nil
+//@ requires cap(req.Domain) >= 4
+//@ modifies db
+//@ ensures [verdicts] result == rules.APPROVED || result == rules.DENIED || result == rules.FAILED
+//@ ensures [sound] result == rules.APPROVED ==> old(wmPropOk(bytes(metadata.PubKey))) && propOK(old(wmPropL(bytes(metadata.PubKey))), req.Slot, prefix4(req.Domain))
+//@ ensures [rec] result == rules.APPROVED ==> wmPropOk(bytes(metadata.PubKey)) && wmPropL(bytes(metadata.PubKey)) == req.Slot
+//@ ensures [keep] result != rules.APPROVED ==> db == old(db)
+//@ ensures [frame] forall k Bytes :: k != propKey(bytes(metadata.PubKey)) ==> ((k in db) <==> (k in old(db))) && db[k] == old(db)[k]
+//@ ensures [compl] store_ok && old(wmPropOk(bytes(metadata.PubKey))) && propOK(old(wmPropL(bytes(metadata.PubKey))), req.Slot, prefix4(req.Domain)) ==> result == rules.APPROVED
+//@ ensures [wrongdomain] prefix4(req.Domain) != PROP ==> result == rules.DENIED
+
+// ---- generic signing ----
+
+//@ func (*Service).OnSign
+//@ requires s != nil && req != nil
+//@ requires cap(req.Domain) >= 4
+//@ ensures [verdicts] result == rules.APPROVED || result == rules.DENIED || result == rules.FAILED
+//@ ensures [noslashable] result == rules.APPROVED ==> prefix4(req.Domain) != ATT && prefix4(req.Domain) != PROP
+//@ ensures [exit] result == rules.APPROVED && prefix4(req.Domain) == EXIT ==> metadata.IP != "" && (exists j int :: 0 <= j && j < len(s.adminIPs) && s.adminIPs[j] == metadata.IP)
+//@ ensures [compl] metadata != nil && prefix4(req.Domain) != ATT && prefix4(req.Domain) != PROP && (prefix4(req.Domain) == EXIT ==> metadata.IP != "" && (exists j int :: 0 <= j && j < len(s.adminIPs) && s.adminIPs[j] == metadata.IP)) ==> result == rules.APPROVED
+//@ loop #1
+//@ invariant [range] 0 <= _n && _n <= len(s.adminIPs)
+//@ invariant [none] forall j int :: 0 <= j && j < _n ==> s.adminIPs[j] != metadata.IP
